@@ -24,10 +24,29 @@ def run(args, junit):
     if os.environ.get("BSL_NETNS"):
         # own network namespace: the zmq tests bind fixed ports, so concurrent suite runs would collide otherwise
         cmd = ["unshare", "-n", "sh", "-c", 'ip link set lo up; exec "$@"', "sh"] + cmd
-    subprocess.run(cmd, cwd=REPO, env=env,
-                   stdout=subprocess.DEVNULL, stderr=subprocess.DEVNULL,
-                   # a shell's background jobs ignore SIGINT; the suite's SIGINT tests need the default disposition
-                   preexec_fn=lambda: signal.signal(signal.SIGINT, signal.SIG_DFL))
+    import time
+
+    proc = subprocess.Popen(cmd, cwd=REPO, env=env, stdout=subprocess.DEVNULL, stderr=subprocess.DEVNULL, start_new_session=True,
+                            # a shell's background jobs ignore SIGINT; the suite's SIGINT tests need the default disposition
+                            preexec_fn=lambda: signal.signal(signal.SIGINT, signal.SIG_DFL))
+    t0 = time.time()
+    while True:
+        try:
+            proc.wait(timeout=10)
+            break
+        except subprocess.TimeoutExpired:
+            pass
+        # pytest writes the junit file when the session is over; a process that is still there two minutes later hangs in
+        # interpreter shutdown (threads left behind by a failed SIGINT test): the results are complete, end it
+        done = os.path.exists(junit) and time.time() - os.path.getmtime(junit) > 120
+        if done or time.time() - t0 > 5400:
+            try:
+                os.killpg(proc.pid, signal.SIGKILL)
+            except ProcessLookupError:
+                pass
+            proc.wait()
+            break
+
 
 base = json.load(open("/root/.vp/BASELINE.json"))
 stable = set(base["stable_pass"])
